@@ -99,7 +99,11 @@ func (fst *FSTree) Get(key string) (record.Record, error) {
 
 	data, err := os.ReadFile(dstPath)
 	if err != nil {
-		if errors.Is(err, fs.ErrNotExist) {
+		// A key that names a directory of the tree, or that runs through the
+		// file of a record, is not stored either.
+		if errors.Is(err, fs.ErrNotExist) ||
+			errors.Is(err, syscall.EISDIR) ||
+			errors.Is(err, syscall.ENOTDIR) {
 			return nil, storage.ErrNotFound
 		}
 		return nil, fmt.Errorf("fstree: failed to read file %s: %w", dstPath, err)
